@@ -111,8 +111,16 @@ def main():
     for key, vs in sorted(by_key.items()):
         v = vs[0]
         if getattr(mod, "REPLAYABLE", True):
-            r1 = mod.replay(v["case"])
-            r2 = mod.replay(v["case"])
+            # each replay runs in a fresh fork of this process, so that both start from the same state whatever
+            # the implementation keeps at module level (state the first replay leaves behind is the code's, not ours)
+            from bbv.core import forked
+            f1 = forked.run_forked(mod.replay, v["case"], timeout=1800)
+            f2 = forked.run_forked(mod.replay, v["case"], timeout=1800)
+            if f1[0] != "ok" or f2[0] != "ok":
+                print("HARNESS ERROR: replay of %s failed: %r / %r" % (key, f1, f2))
+                status = max(status, 3)
+                continue
+            r1, r2 = tuple(f1[1]), tuple(f2[1])
             if r1 != r2:
                 print("HARNESS ERROR: two replays of %s disagree (nondeterminism the harness does not own): %r vs %r" % (key, r1, r2))
                 print("case:", json.dumps(v["case"])[:2000])
